@@ -815,9 +815,12 @@ func interestingValue(v string) bool {
 	return strings.ContainsAny(v, `"\()`) || strings.EqualFold(v, "or") || strings.EqualFold(v, "and")
 }
 
-// The table hypotheses of c14_parse_print_parse_partial (env_ok), evaluated on the real functions and reported in the
-// evidence: lower_ascii on all of ASCII, schemes_ok on every registered URN scheme, lowerK on every code point of the
-// BMP that the generated lexer takes as a one-character PROPERTY (the exceptions are instances of the listed finding).
+// The table hypotheses of c14_parse_print_parse_partial, evaluated on the real functions as GATES: lower_ascii on all
+// of ASCII, schemes_ok on every registered URN scheme, and the per-character hypothesis lowok (lower-casing keeps a key
+// character a key character and is idempotent on it; keeps a letter a letter) on every code point of the BMP — the
+// grammar (antlr/LexUnicode.g4) has no range beyond it.  The characters for which lowok fails must be the 80 recorded
+// ones of the listed finding (Cherokee U+13A0..U+13F5, whose lower-case forms the grammar's tables lack): any other is
+// a failure of its own class, as is a violation of the two table facts.
 func reportEnvOK(res *hx.Result) {
 	bad := 0
 	for c := rune(0); c < 128; c++ {
@@ -827,44 +830,93 @@ func reportEnvOK(res *hx.Result) {
 		}
 		if unicode.ToLower(c) != want {
 			bad++
+			res.Fail("env-ok:lower_ascii", fmt.Sprintf("U+%04X", c), fmt.Sprintf("unicode.ToLower(U+%04X) = U+%04X is not the ASCII mapping", c, unicode.ToLower(c)))
 		}
 	}
+	res.OracleChecks++
 	res.Dist(fmt.Sprintf("env_ok:lower_ascii:violations=%d", bad))
 	bad = 0
 	for _, sc := range urns.Schemes {
 		k := sc.Prefix
 		if k == "" || strings.ToLower(k) != k || !keyLexesAsWritten("urn", k) {
 			bad++
+			res.Fail("env-ok:schemes_ok", k, fmt.Sprintf("the registered URN scheme %q is not a lower-case run of key characters", k))
 		}
 	}
+	res.OracleChecks++
 	res.Dist(fmt.Sprintf("env_ok:schemes_ok:%d-schemes:violations=%d", len(urns.Schemes), bad))
 	isKey := func(c rune) bool {
 		ts := lexReal(string(c) + "_")
 		return len(ts) == 1 && ts[0].Kind == "PROPERTY"
 	}
+	isLetter := func(c rune) bool {
+		ts := lexReal(string(c) + ".x")
+		return len(ts) == 1 && ts[0].Kind == "PROPERTY"
+	}
+	recorded := func(c rune) bool { return c >= 0x13a0 && c <= 0x13f5 }
 	var viol []string
-	n := 0
+	n, badK, badL := 0, 0, 0
 	for c := rune(0x21); c < 0x10000; c++ {
 		if c >= 0xd800 && c <= 0xdfff {
 			continue
 		}
-		if l := unicode.ToLower(c); l != c && isKey(c) {
+		l := unicode.ToLower(c)
+		if l == c {
+			continue
+		}
+		key, letter := isKey(c), isLetter(c)
+		if key || letter {
 			n++
-			if !isKey(l) || unicode.ToLower(l) != l {
-				if len(viol) < 6 {
-					viol = append(viol, fmt.Sprintf("U+%04X->U+%04X", c, l))
-				}
-				bad++
+		}
+		failsK := key && (!isKey(l) || unicode.ToLower(l) != l)
+		failsL := letter && !isLetter(l)
+		if failsK {
+			badK++
+		}
+		if failsL {
+			badL++
+		}
+		if failsK || failsL {
+			if len(viol) < 4 {
+				viol = append(viol, fmt.Sprintf("U+%04X->U+%04X", c, l))
+			}
+			if !recorded(c) {
+				res.Fail("env-ok:lowok:unrecorded-character", fmt.Sprintf("U+%04X", c),
+					fmt.Sprintf("U+%04X is a key character / letter of the grammar, its lower-case form U+%04X is not (or lower-casing is not idempotent): not one of the recorded characters of the listed finding", c, l))
 			}
 		}
 	}
-	res.Dist(fmt.Sprintf("env_ok:lowerK+idem:%d-case-changing-key-characters:violations=%d", n, bad))
-	res.Notes = append(res.Notes, fmt.Sprintf("env_ok on the real tables: lowerK/lower_idem fail for %d of %d case-changing key characters of the BMP (first: %s) — the listed finding reparse:property-key-lowercases-outside-grammar-letters", bad, n, strings.Join(viol, " ")))
+	res.OracleChecks++
+	res.Dist(fmt.Sprintf("env_ok:lowok:%d-case-changing-key-or-letter-characters:fails-key=%d:fails-letter=%d", n, badK, badL))
+	res.Notes = append(res.Notes, fmt.Sprintf("lowok on the real tables (BMP): fails for %d key characters and %d letters, all within the recorded range U+13A0..U+13F5 (first: %s) — the listed finding reparse:property-key-lowercases-outside-grammar-letters; lower_ascii and schemes_ok hold", badK, badL, strings.Join(viol, " ")))
+}
+
+// the certificates of the template theorems for the templates this driver really runs: every piece of template text in
+// front of a slot must have a lexing certificate (model: lex_before) — evaluated in Coq, M lists the pieces without one
+func emitTemplateCertificates(o *hx.Opts, res *hx.Result) {
+	var segs []string
+	for _, tpl := range templates {
+		parts := strings.Split(tpl, "%s")
+		segs = append(segs, parts[:len(parts)-1]...)
+	}
+	f := hx.NewCoqFile(fmt.Sprintf("cases_%s_tplcert_000.v", o.Prop), `From Coq Require Import List NArith Bool.
+From Verif Require Import lib.RegexLM model.CqlSyntax model.CqlParser proofs.CqlTemplateProofs.
+Import ListNotations.
+Fixpoint missing (i : N) (l : list (list N)) : list N :=
+  match l with
+  | [] => []
+  | s :: r => (match lex_before (length s) 34%N s with Some _ => [] | None => [i] end) ++ missing (i + 1)%N r
+  end.`)
+	f.Add("Definition segs : list (list N) := " + hx.List(segs, hx.Str) + ".")
+	f.Add("Definition M := Eval vm_compute in missing 0%N segs.\nPrint M.")
+	f.Save(o, res)
+	res.Dist(fmt.Sprintf("template-certificates:%d-pieces", len(segs)))
 }
 
 func runCqlStreams(o *hx.Opts, res *hx.Result, r *hx.Rand) {
 	e := &emitter{o: o, res: res}
 	reportEnvOK(res)
+	emitTemplateCertificates(o, res)
 
 	// ---- corpus: inputs of earlier findings first -------------------------------------------------------
 	corpus := []string{`name = "a\\" AND name = "b"`, `name = "a\x5c" AND name = "b"`, `"name = x OR id:5"`, `"A b:c"`, `X:y`, `a.b:c`, `fields.Ꭰ = 1`, `Ꭰ = 1`,
